@@ -39,3 +39,12 @@ def neg_sphere_delayed(x):
 
 def neg_onemax_delayed(x):
     return -onemax_delayed(x)
+
+
+def weighted_sum(x, weights=None, scale=None, table=None):
+    x = np.asarray(x, dtype=np.float64)
+    return (x * weights[None, : x.shape[1]]).sum(axis=1) * float(scale) + float(table[0, 0])
+
+
+def g2p_shift(x, shift=None):
+    return np.asarray(x, dtype=np.float64) + shift[None, : np.asarray(x).shape[1]]
